@@ -821,12 +821,18 @@ Agrees(bytes, rel, img, alt, size, mask) ==
 (* bytes EmitData prints / FuncInit stores are the declarative image (or the alternative image where *)
 (* the standard leaves two readings).  With deviations switched on, a disagreement must be covered   *)
 (* by a deviation that fired.                                                                         *)
+\* When the machine stops early (error() or undefined behaviour in the C code) the initializer read so far is
+\* judged with its open braces closed: if that is a valid initializer the compiler had no business stopping.
+OpenDepth(ts) == Cardinality({i \in 1..Len(ts) : ts[i].k = "{"}) - Cardinality({i \in 1..Len(ts) : ts[i].k = "}"})
+Completed == IF pc \in {"err", "undef"} /\ OpenDepth(toks) > 0
+             THEN toks \o [i \in 1..OpenDepth(toks) |-> Tok("}", 0, "")] ELSE toks
 Verdict ==
-  LET D    == Decl
+  LET D    == DeclOf(top, Completed, FALSE)
       size == DeclSize(D)
       img  == Image(D)
       alt  == ImageAlt(D)
       hasagg == \E i \in 1..Len(toks) : toks[i].k = "g"
+      early  == pc \in {"err", "undef"}
       ed   == EmitData(p.list, ObjSize)
       fi   == FuncInit(p.list, ObjSize, Ty[top].align)
       all  == 0..size * 8 - 1
@@ -873,7 +879,7 @@ Emit ==
                                      IN d(0) + 2*d(1) + 4*d(2) + 8*d(3) + 16*d(4) + 32*d(5) + 64*d(6) + 128*d(7)]
           same == v.alt = v.img
       IN PrintT("VCASE " \o ToJson([
-           ty |-> top, toks |-> [i \in 1..Len(toks) |-> TokStr(toks[i])], size |-> v.size,
+           ty |-> top, toks |-> [i \in 1..Len(Completed) |-> TokStr(Completed[i])], size |-> v.size,
            img |-> ib, rel |-> RelOut(v.img.rel \cap v.alt.rel),
            unc |-> IF same THEN <<>> ELSE um,
            optrel |-> IF same THEN <<>> ELSE RelOut((v.img.rel \cup v.alt.rel) \ (v.img.rel \cap v.alt.rel)),
